@@ -17,6 +17,8 @@
 #include <time.h>
 #include <unistd.h>
 
+extern "C" void __sanitizer_print_memory_profile(size_t top_percent, size_t max_number_of_contexts) __attribute__((weak));
+
 namespace vf {
 
 std::string plan_to_text(const Plan &p)
@@ -452,6 +454,7 @@ int main(int argc, char **argv)
         }
     });
     unlink((prefix + ".current").c_str());
+    if (getenv("VF_MEMPROFILE") && __sanitizer_print_memory_profile) __sanitizer_print_memory_profile(95, 12);
     h->teardown();
     write_stats(prefix + ".stats.json", h, st);
     if (!ok || st.failed) return 3;
